@@ -299,18 +299,19 @@ TEXT = {
   "text": "Kernel-checked theorems over the Go-faithful model of NewMomentumContent (sorted by address|height|hash bytes; any two "
           "sorted arrangements of the same headers are equal, so sort(perm l) = sort l independently of the algorithm), of "
           "CheckGenesis and its five validators as repaired (contract without entry, second entry for an address, nil / negative "
-          "amount, MaxSupply) — check_genesis_sound: accepted => for every declared token the LEDGER balances (one per address "
+          "amount, MaxSupply, nil / negative fusion, pillar and swap amounts) — check_genesis_sound: accepted => for every declared token the LEDGER balances (one per address "
           "and token, as NewGenesis stores them) add up to TotalSupply with 0 <= TotalSupply <= MaxSupply, every held token is "
           "declared, no balance is negative or missing, no address has two entries, the plasma contract holds exactly the sum of "
           "the fusions in QSR, the pillar contract exactly the sum of the stakes in ZNN, neither anything else, the swap contract "
-          "nothing; the only premise is the representation invariant of a Go map — and of checkGenesisCompatibility (refused iff "
+          "nothing, every fusion / pillar / swap amount is present and non-negative; the only premise is the representation invariant of a Go map — and of checkGenesisCompatibility (refused iff "
           "stored height-1 hash differs); tied to the tree by regenerated facts (validator order, comparer operator, header "
           "field order, contract addresses) and a differential stream on the real NewGenesis / CheckGenesis / "
           "ReadGenesisConfigFromFile / chain.Init.",
   "design_ref": "§3 C20",
   "note": "Permutation / fresh-process invariance of the whole genesis momentum is decided on the real code by the stream's "
-          "monitor, not by a theorem. The five defects the check had found in the validators (F13a-e: no contract entry, "
-          "duplicate address entry, supply above MaxSupply, (nil,nil) from ReadGenesisConfigFromFile, negative amounts) are "
+          "monitor, not by a theorem. The six defects the check had found in the validators (F13a-f: no contract entry, "
+          "duplicate address entry, supply above MaxSupply, (nil,nil) from ReadGenesisConfigFromFile, negative amounts, unchecked "
+          "signs of individual fusion / pillar / swap amounts) are "
           "repaired in /repo; the former _partial theorems are full statements, the former negative witnesses are theorems that "
           "the same configurations are refused, and the stream produces each of these configurations on every run (a model-free "
           "monitor fails if one is accepted again). Configurations on which the validators dereference nil are outside the "
